@@ -17,7 +17,7 @@ func init() {
 	register("C09",
 		"DECIDED: D1 tag table — for every Set*/Add* method of the streaming builders the first appended varint equals (fieldNumber<<3)|wireType with number and type parsed from the struct tag of the same-named field of the generated message (protobuf, protobuf_key, protobuf_val; the tag is appended to a scratch truncated to length 0 — in the append itself or by the statement before it; a packed repeated scalar may be written unpacked with the element's wire type), and the value is written with the encoding of that kind: fixed64 ↔ AppendFixed64(Float64bits(v)), zigzag32 ↔ AppendVarint(EncodeZigZag(int64(v))), varint ↔ AppendVarint(v), bytes ↔ tag, length of the sub-buffer, then both written in that order after the callback filled a reset sub-buffer. "+
 			"D2 ToProto ↔ EncodeProto correspondence for the dense, sparse and paginated stores and the sketch: same set of message fields / builder setters, each fed from the same normalised term (same receiver field, conversion, window), sub-messages go to the same side, empty stores behave alike; for the sparse and paginated stores an entry is exported under the same tests on both sides (every entry of the iteration, or the same selection). "+
-			"D3 rebuild path — FromProtoWithStoreProvider feeds PositiveValues into the store that becomes the positive store (same for negative), copies ZeroCount, builds the mapping from pb.Mapping and returns its error; FromProto returns that function's result for its own message on every path; MergeWithProto (both copies) adds BinCounts[k] at int(k) AND ContiguousBinCounts[i] at i + int(offset). D4 kind round trip = C19-D1. "+
+			"D3 rebuild path — nothing reachable from a protobuf message handed to a function outside the generated package is written (a message can be rebuilt from twice); FromProtoWithStoreProvider feeds PositiveValues into the store that becomes the positive store (same for negative), copies ZeroCount, builds the mapping from pb.Mapping and returns its error; FromProto returns that function's result for its own message on every path; MergeWithProto (both copies) adds BinCounts[k] at int(k) AND ContiguousBinCounts[i] at i + int(offset). D4 kind round trip = C19-D1. "+
 			"SHARED (re-evaluated here under their home rule ids): C04-D1/D2/D3/D5/D6/D9 and C05-D8 (the add side of every store: a bin rebuilt from a message is counted at its index). C14-D5 for every function with Proto or Builder in its name (no conversion leaves or uses package-level state: each call builds on its own builder and scratch). C19-D1 protobuf part — for each mapping kind the interpolation enum and (gamma, offset) written by ToProto and by the streaming EncodeProto are the ones whose FromProto arm constructs that same kind. "+
 			"NOT DECIDED: behaviour of the protobuf runtime; bit-for-bit equality of weights (follows from float64 transport).",
 		"one obligation per builder method (tag + value encoding), per store/sketch correspondence clause, per rebuild clause",
